@@ -283,7 +283,9 @@ void body(worker *w)
 }
 
 using ms = std::chrono::milliseconds;
-const ms SHORT(60), LONG(600000);
+const ms SHORT(60);
+ms LONG(600000);      // 10 minutes; 20 s when the extracted discipline is already known to be broken (the mirror of
+                      // the lock is then a guess, and whatever is concluded from a time-out is reported as a broken tie)
 
 // let `w` advance (give it a command or release it from its park) and wait for its next arrival
 bool advance(worker &w, ms patience, const opd *cmd = nullptr, unsigned long *seen = nullptr)
@@ -432,6 +434,7 @@ public:
     int last(-1);
     for (;;)
     {
+      if (aborted) break;
       std::vector<cand> cs(candidates());
       if (cs.empty()) break;
       const int i(choose(cs, last));
@@ -908,6 +911,7 @@ int main(int argc, char **argv)
   long probes(argc > 5 ? std::stol(argv[5]) : 60);
   if (argc > 6 && std::strlen(argv[6]) == 7) DISC = argv[6];
   SEAL_ATOMIC = argc > 7 && std::string(argv[7]) == "1";
+  if (DISC.find_first_of("NU") != std::string::npos || DISC[1] == '1') LONG = ms(20000);
   const unsigned pb(argc > 8 ? std::stoul(argv[8]) : 2);
   const bool thorough(dfs_cap > 1000);
   maybe_left = 3 * probes;
